@@ -35,6 +35,12 @@ theorem C16_live_list_within_targets (p : R.Policy) (b : Bool) (tr : List R.Ev) 
   let i := R.inv_run p b tr s h
   ⟨i.listSub, i.listNodup, i.heapPerm, i.targetsNodup, i.noEmptyAddr⟩
 
+/-- R's events `update` and `checkDone` are single steps because, in the source read on this run,
+    Update swaps the map and clears the derived structures inside one critical section and check()
+    does its whole work (liveness, rebuild from the current map, release of waiters) inside one. -/
+theorem C16_events_are_critical_sections :
+    (Gen.updateOneCriticalSection && Gen.checkOneCriticalSection) = true := by decide
+
 /-! Non-vacuity: a removed target is not used after Update even though it was live. -/
 example : ((R.run (R.init .rr false)
     [.update ["a", "b", "", "a"], .setUp "a" true, .setUp "b" true, .checkDone "a" ["a"], .checkDone "b" ["a", "b"],
